@@ -59,6 +59,45 @@ type C18Report struct {
 	// workload statistics (part a)
 	RepsParallel int `json:"reps_parallel,omitempty"` // repetitions in which >= 2 goroutines' run intervals intersected (wall clock, evidence only)
 	Compared     int `json:"compared,omitempty"`      // results compared with the sequential ones
+	MaxRepCPUms  int `json:"max_rep_cpu_ms,omitempty"` // most CPU time one repetition took (margin to C18RepBudget)
+}
+
+// C18RepBudget bounds the CPU time the child process may burn on ONE
+// repetition (or on the sequential pass) before the goroutines are declared
+// stuck: a library call that spins for ever would otherwise surface only as
+// the 30-minute harness limit.  CPU time of the process (getrusage), not wall
+// time, so load cannot trip it; legitimate repetitions take well under ten
+// CPU-seconds even with race instrumentation (see max-rep-cpu classes).
+const C18RepBudget = 300 * time.Second
+
+// C18Guard runs f (which joins the goroutines of one repetition) under the
+// budget.  When f does not come back the child emits a report carrying the
+// violation and exits at once (the stuck goroutines cannot be stopped).
+func C18Guard(rep *C18Report, what string, f func()) {
+	c0 := h.ProcCPU()
+	if h.Returns(C18RepBudget, f) {
+		if ms := int((h.ProcCPU() - c0) / time.Millisecond); ms > rep.MaxRepCPUms {
+			rep.MaxRepCPUms = ms
+		}
+		return
+	}
+	rep.Viol = &C18Viol{Sig: "api:no-return-under-concurrency", Detail: fmt.Sprintf("%s: the calls had not returned after the process burned %v of CPU time on them (they take milliseconds)", what, C18RepBudget)}
+	C18ChildEmit(*rep)
+	os.Stdout.Sync()
+	os.Exit(1)
+}
+
+// C18CPUBucket labels MaxRepCPUms for the class histogram.
+func C18CPUBucket(ms int) string {
+	switch {
+	case ms < 1000:
+		return "max-rep-cpu:<1s"
+	case ms < 10000:
+		return "max-rep-cpu:1-10s"
+	case ms < 60000:
+		return "max-rep-cpu:10-60s"
+	}
+	return "max-rep-cpu:>=60s(budget 300s)"
 }
 
 // C18IsChild reports whether this process is a child and for which kind.
